@@ -293,10 +293,9 @@ func (e *env) precancel(k kase) {
 	case !errors.Is(o.err, want):
 		t.Violate(pre+"class=wrong-error", what(fmt.Sprintf("error %q does not match %q", o.err.Error(), want.Error())), k)
 	}
-	// the whole call is "after the cancel": the same work bound applies
-	if n := rs.reads + rs.seeks; n > bound(in.ops()) {
-		t.Violate(pre+"class=work-after-cancel", what(fmt.Sprintf("%d reader operations under a cancelled context (uncancelled read: %d, bound %d)", n, in.ops(), bound(in.ops()))), k)
-	}
+	// The property asks nothing about the work done under an already cancelled context (only the
+	// error and the absence of a document); the reader operations are recorded as an observation.
+	maxi(&maxPre, rs.reads+rs.seeks)
 }
 
 func (e *env) midread(k kase) {
@@ -345,7 +344,7 @@ func (e *env) midread(k kase) {
 	}
 }
 
-var maxAfter, maxPolls atomic.Int64
+var maxAfter, maxPolls, maxPre atomic.Int64
 
 func maxi(a *atomic.Int64, v int64) {
 	for {
@@ -533,7 +532,7 @@ func work(t *vk.T) {
 	}
 
 	var cases []kase
-	for _, in := range ins {
+	for inIdx, in := range ins {
 		for _, kind := range []string{"cancel", "deadline"} {
 			for _, entry := range []string{"ReadWithContext", "ReadFileWithContext"} {
 				cases = append(cases, kase{Mode: "precancel", Input: in.Name, Class: in.Class, Kind: kind, Entry: entry})
@@ -550,8 +549,8 @@ func work(t *vk.T) {
 		}
 		for j, p := range pts {
 			kinds := []string{"cancel", "deadline"}
-			if !t.Quick() && j >= 10 {
-				kinds = kinds[j%2 : j%2+1]
+			if t.Quick() || j >= 10 {
+				kinds = kinds[(j+inIdx)%2 : (j+inIdx)%2+1]
 			}
 			for _, kind := range kinds {
 				cases = append(cases, kase{Mode: "midread", Input: in.Name, Class: in.Class, Kind: kind, Point: p.label, K: p.k, Entry: "ReadWithContext"})
@@ -559,7 +558,7 @@ func work(t *vk.T) {
 		}
 	}
 	arng := t.RNG("async")
-	for i := 0; i < t.Pick(120, 1500); i++ {
+	for i := 0; i < t.Pick(100, 1500); i++ {
 		in := ins[arng.IntN(len(ins))]
 		k := kase{Mode: "async", Input: in.Name, Class: in.Class, Kind: "cancel", Entry: "ReadWithContext", Point: "seeded"}
 		k.K = 1 + arng.Int64N(in.ops())
@@ -589,6 +588,7 @@ func work(t *vk.T) {
 	vk.Parallel(len(cases), func(i int) { e.run(cases[i]) })
 	t.Count("midread_max_ops_after_cancel", maxAfter.Load())
 	t.Count("midread_max_polls_after_cancel", maxPolls.Load())
+	t.Count("precancel_max_reader_ops", maxPre.Load())
 	for i, in := range ins {
 		if i%7 == 0 {
 			t.Sample(map[string]any{"input": in.Name, "bytes": len(in.Data), "reads": in.Reads, "seeks": in.Seeks, "ctx_polls": in.Polls, "bound_ops_after_cancel": bound(in.ops())})
@@ -597,6 +597,12 @@ func work(t *vk.T) {
 }
 
 func (e *env) run(k kase) {
+	if os.Getenv("VERIF_C10_DEBUG") != "" {
+		st := time.Now()
+		defer func() {
+			fmt.Fprintf(os.Stderr, "TIME %8.1fms %s %s %s %s k=%d\n", float64(time.Since(st).Microseconds())/1000, k.Mode, k.Input, k.Kind, k.Point, k.K)
+		}()
+	}
 	switch k.Mode {
 	case "precancel":
 		e.precancel(k)
